@@ -13,7 +13,7 @@ namespace OS
 open List
 
 /-- `_compute` on two presentations of the rosters: one id-preserving update function per team -/
-theorem eqv_compute_fn (K : Kind) (L : Leaves ℝ) (P : Params ℝ)
+theorem eqv_compute_fn (K : Kind) (L : Leaves ℝ) (P : Params ℝ) (hg : GammaPermInv P.gamma)
     {teams teams' : List (List (Rating ℝ))} (h : List.Forall₂ List.Perm teams teams')
     (dense : List ℕ) :
     ∃ fs : List (Rating ℝ → Rating ℝ),
@@ -23,7 +23,7 @@ theorem eqv_compute_fn (K : Kind) (L : Leaves ℝ) (P : Params ℝ)
       compute K L P teams' dense = List.zipWith (fun f t => t.map f) fs teams' := by
   unfold compute
   simp only []
-  rw [← eqv_omegaDelta_congr K L P _ _ (eqv_teamAggs_key h dense)]
+  rw [← eqv_omegaDelta_congr K L P _ _ (eqv_teamAggs_key h dense) (gam_teamAggs_sameCalls hg h dense)]
   obtain ⟨fs, hl, hid, h1, h2⟩ := eqv_applyAll_fn P.kappa h dense
     (omegaDelta K L P (teamAggs teams dense))
   refine ⟨fs, ?_, hid, h1, h2⟩
@@ -107,8 +107,8 @@ theorem eqv_inflate_forall₂ (tau : ℝ) {teams teams' : List (List (Rating ℝ
 
 /-- ranked `rate` before the clamp: one id-preserving update function per team, the same for
 both presentations of the rosters -/
-theorem eqv_rateRes_player_fn (K : Kind) (L : Leaves ℝ) (P : Params ℝ) (tau : ℝ)
-    {teams teams' : List (List (Rating ℝ))} (h : List.Forall₂ List.Perm teams teams')
+theorem eqv_rateRes_player_fn (K : Kind) (L : Leaves ℝ) (P : Params ℝ) (hg : GammaPermInv P.gamma)
+    (tau : ℝ) {teams teams' : List (List (Rating ℝ))} (h : List.Forall₂ List.Perm teams teams')
     (r : List ρ) (hlen : r.length = teams.length) :
     ∃ hs : List (Rating ℝ → Rating ℝ), (∀ f ∈ hs, ∀ p, (f p).id = p.id) ∧
       eqv_rateRes K L P le tau teams r = List.zipWith (fun f t => t.map f) hs teams ∧
@@ -120,7 +120,7 @@ theorem eqv_rateRes_player_fn (K : Kind) (L : Leaves ℝ) (P : Params ℝ) (tau 
   have hu2 : (unwind le r (inflate tau teams')).2 = (unwind le r (inflate tau teams)).2 :=
     eqv_unwind_snd_indep le r _ _ (by rw [hil, hil'])
   have hu1 := eqv_unwind_forall₂ le r hI
-  obtain ⟨fs, hfl, hfid, e1, e2⟩ := eqv_compute_fn K L P hu1
+  obtain ⟨fs, hfl, hfid, e1, e2⟩ := eqv_compute_fn K L P hg hu1
     (denseRanks (fun a b => !le b a) (sortedKeys le r))
   have hfl' : fs.length = teams.length := by
     rw [hfl, unwind_fst_length, length_denseRanks, length_sortedKeys, hil, hlen]
@@ -145,15 +145,15 @@ theorem eqv_rateRes_player_fn (K : Kind) (L : Leaves ℝ) (P : Params ℝ) (tau 
       List.zipWith_comm, eqv_inflate_eq_map, eqv_zipWith_map_map]
 
 /-- `rate` without ranks, before the clamp -/
-theorem eqv_rateNone_player_fn (K : Kind) (L : Leaves ℝ) (P : Params ℝ) (tau : ℝ)
-    {teams teams' : List (List (Rating ℝ))} (h : List.Forall₂ List.Perm teams teams') :
+theorem eqv_rateNone_player_fn (K : Kind) (L : Leaves ℝ) (P : Params ℝ) (hg : GammaPermInv P.gamma)
+    (tau : ℝ) {teams teams' : List (List (Rating ℝ))} (h : List.Forall₂ List.Perm teams teams') :
     ∃ hs : List (Rating ℝ → Rating ℝ), (∀ f ∈ hs, ∀ p, (f p).id = p.id) ∧
       compute K L P (inflate tau teams) (List.range (inflate tau teams).length)
         = List.zipWith (fun f t => t.map f) hs teams ∧
       compute K L P (inflate tau teams') (List.range (inflate tau teams').length)
         = List.zipWith (fun f t => t.map f) hs teams' := by
   have hI := eqv_inflate_forall₂ tau h
-  obtain ⟨fs, -, hfid, e1, e2⟩ := eqv_compute_fn K L P hI (List.range (inflate tau teams).length)
+  obtain ⟨fs, -, hfid, e1, e2⟩ := eqv_compute_fn K L P hg hI (List.range (inflate tau teams).length)
   refine ⟨fs.map (fun g => g ∘ eqv_inflP tau), ?_, ?_, ?_⟩
   · intro f hf p
     obtain ⟨g, hg, rfl⟩ := List.mem_map.1 hf
@@ -177,8 +177,8 @@ theorem eqv_rateCore_eq_rateRaw (K : Kind) (L : Leaves ℝ) (P : Params ℝ) (o 
 
 /-- **`rate`, any outcome, with or without the clamp**: one id-preserving update function per
 team, the same for both presentations of the rosters -/
-theorem eqv_rateCore_player_fn (K : Kind) (L : Leaves ℝ) (P : Params ℝ) (o : CallOpts ℝ)
-    {teams teams' : List (List (Rating ℝ))} (h : List.Forall₂ List.Perm teams teams')
+theorem eqv_rateCore_player_fn (K : Kind) (L : Leaves ℝ) (P : Params ℝ) (hg : GammaPermInv P.gamma)
+    (o : CallOpts ℝ) {teams teams' : List (List (Rating ℝ))} (h : List.Forall₂ List.Perm teams teams')
     (ranks : Option (List ρ)) (hlen : ∀ r, ranks = some r → r.length = teams.length) :
     ∃ hs : List (Rating ℝ → Rating ℝ), (∀ f ∈ hs, ∀ p, (f p).id = p.id) ∧
       rateCore K L P le teams ranks o = List.zipWith (fun f t => t.map f) hs teams ∧
@@ -188,8 +188,8 @@ theorem eqv_rateCore_player_fn (K : Kind) (L : Leaves ℝ) (P : Params ℝ) (o :
       eqv_rateRaw le K L P (resolveTau P o) teams' ranks
         = List.zipWith (fun f t => t.map f) hs teams' := by
     cases ranks with
-    | none => exact eqv_rateNone_player_fn K L P _ h
-    | some r => exact eqv_rateRes_player_fn le K L P _ h r (hlen r rfl)
+    | none => exact eqv_rateNone_player_fn K L P hg _ h
+    | some r => exact eqv_rateRes_player_fn le K L P hg _ h r (hlen r rfl)
   rw [eqv_rateCore_eq_rateRaw, eqv_rateCore_eq_rateRaw, e1, e2]
   by_cases hlim : resolveLimit P o = true
   · simp only [hlim, if_true, eqv_clampTeams_fn]
